@@ -532,12 +532,14 @@ pub fn run(run: &mut Run) {
     let calls = if cfg!(miri) { 6 } else { 48 };
     run.sub("variable-rule", per_type * 24, move |l, idx, rng| {
         let name = ARITH_NAMES[(idx % 24) as usize];
-        with_arith!(name, A, { run_var::<A>(l, name, &|| <A>::new(), rng, calls) }, { panic!() });
+        let dflt = (idx / 24) % 3 == 2; // a third of the objects come from Default::default()
+        with_arith!(name, A, { run_var::<A>(l, name, &|| if dflt { <A as Default>::default() } else { <A>::new() }, rng, calls) }, { panic!() });
     });
     let rows = if cfg!(miri) { 5 } else { 40 };
     run.sub("layered-vs-flooding", per_type * 24, move |l, idx, rng| {
         let name = ARITH_NAMES[(idx % 24) as usize];
-        with_arith!(name, A, { run_layered::<A>(l, name, &|| <A>::new(), rng, rows) }, { panic!() });
+        let dflt = (idx / 24) % 3 == 2;
+        with_arith!(name, A, { run_layered::<A>(l, name, &|| if dflt { <A as Default>::default() } else { <A>::new() }, rng, rows) }, { panic!() });
     });
     if !cfg!(miri) {
         let names8: Vec<&'static str> = ARITH_NAMES.iter().cloned().filter(|n| is_i8(n)).collect();
